@@ -12,8 +12,8 @@ import (
 	"strings"
 
 	"golang.org/x/tools/go/packages"
-	"golang.org/x/tools/go/ssa"
-	"golang.org/x/tools/go/ssa/ssautil"
+	"gclverify/xt/ssa"
+	"gclverify/xt/ssa/ssautil"
 )
 
 // Prog is the loaded, type-checked, SSA-built module.
@@ -31,6 +31,8 @@ type Prog struct {
 	addrTaken map[*ssa.Function]bool
 	lockInfo  *LockInfo
 	inCallSiteBound int
+	removed   map[*ssa.Function]bool // helpers that the variant inlined everywhere (dead code in the variant)
+	Variant   string // "" = the program as written; otherwise the name of the equivalent variant (variant.go)
 }
 
 // required anchor packages (relative to the module root)
@@ -375,7 +377,7 @@ func (p *Prog) Method(nt *types.Named, name string) *ssa.Function {
 				fn := p.SSA.MethodValue(sel)
 				if fn != nil {
 					fn = p.unwrap(fn)
-					if fn.Blocks != nil {
+					if fn.Blocks != nil && !p.removed[fn] {
 						return fn
 					}
 				}
@@ -389,7 +391,7 @@ func (p *Prog) Method(nt *types.Named, name string) *ssa.Function {
 func (p *Prog) MethodsOf(nt *types.Named) []*ssa.Function {
 	var out []*ssa.Function
 	for i := 0; i < nt.NumMethods(); i++ {
-		if fn := p.SSA.FuncValue(nt.Method(i)); fn != nil && fn.Blocks != nil {
+		if fn := p.SSA.FuncValue(nt.Method(i)); fn != nil && fn.Blocks != nil && !p.removed[fn] {
 			out = append(out, fn)
 		}
 	}
